@@ -8,8 +8,8 @@ RD(a, n, pid) == [k |-> "r", a |-> <<0, a>>, n |-> n, d |-> <<>>, m |-> <<>>, pi
 WR(a, d, m, pid) == [k |-> "w", a |-> <<0, a>>, n |-> Len(d), d |-> d, m |-> m, pid |-> pid]
 \* page size 4: page 0 = 0..3, page 1 = 4..7, page 2 = 8..11
 MCReqs == {[src |-> 1, p |-> RD(1, 4, 1)], [src |-> 2, p |-> WR(3, <<9, 8>>, <<1, 0>>, 1)],
-           [src |-> 1, p |-> WR(2, <<7>>, <<1>>, 2)], [src |-> 3, p |-> RD(0, 8, 2)],
-           [src |-> 2, p |-> RD(6, 4, 1)], [src |-> 3, p |-> WR(5, <<5, 4, 3>>, <<1, 1, 0>>, 2)],
+           [src |-> 1, p |-> WR(2, <<7, 6>>, NilMask, 2)], [src |-> 3, p |-> RD(0, 8, 2)],
+           [src |-> 2, p |-> RD(6, 4, 1)], [src |-> 3, p |-> WR(5, <<5, 4, 3>>, <<1, 1, 0>>, 2)], [src |-> 2, p |-> WR(10, <<4>>, NilMask, 3)],
            [src |-> 1, p |-> RD(9, 2, 3)], [src |-> 2, p |-> RD(1, 4, 1)]}
 MCPBases == {<<0, 16>>, <<0, 32>>, <<1, 64>>}
 MCRspData == {<<7, 7, 1, 2>>, <<8, 0, 0, 8>>}
